@@ -196,6 +196,9 @@ func (t *Target) Invoke(c Call, lg *Log) (out Outcome) {
 		case MPoolEM:
 			if req, ok := c.Data["Req"]; ok {
 				e, res = p.ExecuteRulesWithSpecifiedEM("Req", req, "Resp", c.Data["Resp"])
+			} else if stf, ok := c.Data["st"]; ok {
+				// the two slots of this form carry the request's own observers
+				e, res = p.ExecuteRulesWithSpecifiedEM("st", stf, "en", c.Data["en"])
 			} else {
 				e, res = p.ExecuteRulesWithSpecifiedEM("stag", stag, "", nil)
 			}
